@@ -182,54 +182,112 @@ VALID = ("resp", "notif", "req")
 
 
 def run_gate_scripts(scripts):
-    """each script: list of steps {op: SetVersion, v: "yyyy-mm-dd"} | {op: Batch, members:[kinds]} |
-    {op: Single, kind}.  Returns traces: per step the observation."""
-    from chuk_mcp.transports.stdio.stdio_client import StdioClient
+    """each script: list of steps {op: Handshake, v, via} (first step only) | {op: SetVersion, v: "yyyy-mm-dd"} |
+    {op: Batch, members:[kinds]} | {op: Single, kind}.  Returns traces: per step the observation.
+    Handshake negotiates v for real: via = "with_initialize" (stdio_client_with_initialize, version
+    tracking) or "mcpclient" (MCPClient.initialize over StdioTransport); a scripted server behind the
+    seam answers initialize with v."""
+    from chuk_mcp.transports.stdio.stdio_client import StdioClient, stdio_client_with_initialize
+    from chuk_mcp.transports.stdio.transport import StdioTransport
+    from chuk_mcp.client.client import MCPClient
 
     out = []
 
+    async def answer_initialize(proc, v, stop):
+        seen = 0
+        while not stop:
+            await anyio.sleep(0.001)
+            lines = bytes(proc.stdin.data).split(b"\n")[:-1]
+            while seen < len(lines):
+                try:
+                    req = json.loads(lines[seen].decode())
+                except Exception:
+                    req = {}
+                seen += 1
+                if isinstance(req, dict) and req.get("method") == "initialize":
+                    proc.stdout.feed((json.dumps({"jsonrpc": "2.0", "id": req["id"], "result": {"protocolVersion": v, "capabilities": {}, "serverInfo": {"name": "gate", "version": "1"}}}) + "\n").encode())
+                    return
+
+    async def steps(script, client, proc, evs, n0=0):
+        n = n0
+        for st in script:
+            e = dict(st)
+            if st["op"] == "SetVersion":
+                client.set_protocol_version(st["v"])
+                y, m, d = st["v"].split("-")
+                e["t"] = [int(y), int(m), int(d)]
+            elif st["op"] == "Batch":
+                ms = []
+                tags = []
+                for k in st["members"]:
+                    n += 1
+                    ms.append(member_json(k, n))
+                    tags.append([k, n])
+                e["tags"] = tags
+                proc.stdout.feed((json.dumps(ms) + "\n").encode())
+            elif st["op"] == "Single":
+                n += 1
+                e["tag"] = [st["kind"], n]
+                proc.stdout.feed((json.dumps(member_json(st["kind"], n)) + "\n").encode())
+            before = len(proc.log)
+            await idle()
+            e["delivered"] = [msg_tag(m) for m in drain(client._incoming_recv)]
+            e["notified"] = [msg_tag(m) for m in drain(client.notifications)]
+            tochild = []
+            for what, b in proc.log[before:]:
+                if what == "stdin":
+                    for line in b.decode().splitlines():
+                        try:
+                            d = json.loads(line)
+                            code = d.get("error", {}).get("code") if isinstance(d, dict) else None
+                            tochild.append(["err", code if isinstance(code, int) else 0, 1 if (isinstance(d, dict) and d.get("jsonrpc") == "2.0" and "error" in d and "result" not in d) else 0])
+                        except Exception:
+                            tochild.append(["garbage", 0, 0])
+            e["tochild"] = tochild
+            evs.append(e)
+
     async def one(script):
         evs = []
-        n = 0
         with seam() as procs:
-            client = StdioClient(params())
-            async with client:
-                proc = procs[0]
-                for st in script:
-                    e = dict(st)
-                    if st["op"] == "SetVersion":
-                        client.set_protocol_version(st["v"])
-                        y, m, d = st["v"].split("-")
-                        e["t"] = [int(y), int(m), int(d)]
-                    elif st["op"] == "Batch":
-                        ms = []
-                        tags = []
-                        for k in st["members"]:
-                            n += 1
-                            ms.append(member_json(k, n))
-                            tags.append([k, n])
-                        e["tags"] = tags
-                        proc.stdout.feed((json.dumps(ms) + "\n").encode())
-                    elif st["op"] == "Single":
-                        n += 1
-                        e["tag"] = [st["kind"], n]
-                        proc.stdout.feed((json.dumps(member_json(st["kind"], n)) + "\n").encode())
-                    before = len(proc.log)
-                    await idle()
-                    e["delivered"] = [msg_tag(m) for m in drain(client._incoming_recv)]
-                    e["notified"] = [msg_tag(m) for m in drain(client.notifications)]
-                    tochild = []
-                    for what, b in proc.log[before:]:
-                        if what == "stdin":
-                            for line in b.decode().splitlines():
-                                try:
-                                    d = json.loads(line)
-                                    code = d.get("error", {}).get("code") if isinstance(d, dict) else None
-                                    tochild.append(["err", code if isinstance(code, int) else 0, 1 if (isinstance(d, dict) and d.get("jsonrpc") == "2.0" and "error" in d and "result" not in d) else 0])
-                                except Exception:
-                                    tochild.append(["garbage", 0, 0])
-                    e["tochild"] = tochild
-                    evs.append(e)
+            if script and script[0]["op"] == "Handshake":
+                hs = script[0]
+                y, m, d = hs["v"].split("-")
+                ev0 = {"op": "SetVersion", "v": hs["v"], "t": [int(y), int(m), int(d)], "via": hs["via"], "delivered": [], "notified": [], "tochild": []}
+                stop = []
+                async with anyio.create_task_group() as tg:
+                    async def srv():
+                        while not procs:
+                            await anyio.sleep(0.001)
+                        await answer_initialize(procs[0], hs["v"], stop)
+                    tg.start_soon(srv)
+                    if hs["via"] == "with_initialize":
+                        # the context manager hides the client: find it through the process seam
+                        import gc
+                        async with stdio_client_with_initialize(params(), timeout=2.0, supported_versions=[hs["v"]]) as (rs, ws, init):
+                            client = next(o for o in gc.get_objects() if isinstance(o, StdioClient) and o.process is procs[0])
+                            before = len(procs[0].log)
+                            await idle()
+                            drain(client._incoming_recv)
+                            drain(client.notifications)
+                            evs.append(ev0)
+                            await steps(script[1:], client, procs[0], evs)
+                    else:
+                        transport = StdioTransport(params())
+                        async with transport:
+                            mc = MCPClient(transport)
+                            await mc.initialize()
+                            client = transport._client
+                            await idle()
+                            drain(client._incoming_recv)
+                            drain(client.notifications)
+                            evs.append(ev0)
+                            await steps(script[1:], client, procs[0], evs)
+                    stop.append(1)
+                    tg.cancel_scope.cancel()
+            else:
+                client = StdioClient(params())
+                async with client:
+                    await steps(script, client, procs[0], evs)
         return evs
 
     async def main():
@@ -521,6 +579,61 @@ def run_frames(texts):
                     got, gotn = [], []
                     await _settle(client, got, gotn)
                     out.extend(m.model_dump(exclude_none=True) if hasattr(m, "model_dump") else m for m in got)
+
+    vloop.run(main)
+    return out
+
+
+
+# ---------------------------------------------------------------------------
+# routing (growth item, checked with C05): legacy per-request streams never steal messages
+
+ROUTE_IDS = {"a": "a", "7": 7, "b": "b"}      # the model's id "7" is the INTEGER 7 on the wire (str(id) is the key)
+
+
+def run_routing(scripts):
+    """script steps: {op: Register, id} | {op: Feed, kind, id}.  Returns event lists."""
+    from chuk_mcp.transports.stdio.stdio_client import StdioClient
+
+    out = []
+
+    async def one(script):
+        evs = []
+        n = 0
+        with seam() as procs:
+            client = StdioClient(params())
+            async with client:
+                proc = procs[0]
+                regs = {}
+                for st in script:
+                    e = dict(st)
+                    if st["op"] == "Register":
+                        regs[st["id"]] = client.new_request_stream(str(ROUTE_IDS[st["id"]]))
+                    else:
+                        n += 1
+                        rid = ROUTE_IDS.get(st["id"])
+                        if st["kind"] == "resp":
+                            m = {"jsonrpc": "2.0", "id": rid, "result": {"marker": n}}
+                        elif st["kind"] == "req":
+                            m = {"jsonrpc": "2.0", "id": rid, "method": "roots/list", "params": {"marker": n}}
+                        else:
+                            m = {"jsonrpc": "2.0", "method": "notifications/message", "params": {"marker": n, "level": "info", "data": "x"}}
+                        proc.stdout.feed((json.dumps(m) + "\n").encode())
+                        await idle()
+                        e["main"] = [msg_tag(x)[1] for x in drain(client._incoming_recv)]
+                        e["notify"] = [msg_tag(x)[1] for x in drain(client.notifications)]
+                        leg = []
+                        if st["id"] in regs:
+                            leg = [msg_tag(x)[1] for x in drain(regs[st["id"]])]
+                        e["legacy"] = leg
+                        # nothing may appear on the OTHER registered streams
+                        e["stray"] = sum(len(drain(r)) for k, r in regs.items() if k != st["id"])
+                    evs.append(e)
+        return evs
+
+    async def main():
+        for sc in scripts:
+            out.append(await one(sc))
 
     vloop.run(main)
     return out
